@@ -170,6 +170,24 @@ def case_geom(i, case, out):
         c = np.asarray(mesh.center, float)
         res(out, i, "center:%s:%s" % (el, stage), "center:%s:%s" % (el, stage), rel(c, cenref[0], L) <= TOL,
             "%s mesh %s: center %s, exact %s" % (el, stage, c.tolist(), cenref[0].tolist()), c.tolist(), cenref[0].tolist())
+        if dim == 2:
+            # the element frame of _Get_sysCoord_e against its model (C08_frame.v): i = unit(X1 - X0), k = unit(i x (Xn - X0)),
+            # j = k x i with n = 2 (TRI) / 3 (QUAD); third frame coordinate constant on each (planar) element
+            Xc = np.asarray(mesh.coord)
+            for g in main_groups(mesh):
+                conn = np.asarray(g.connect)
+                n2 = 2 if g.elemType.name.startswith("TRI") else 3
+                unit = lambda v: v / np.linalg.norm(v, axis=1)[:, None]
+                im = unit(Xc[conn[:, 1]] - Xc[conn[:, 0]])
+                km = unit(np.cross(im, unit(Xc[conn[:, n2]] - Xc[conn[:, 0]])))
+                jm = np.cross(km, im)
+                P = np.asarray(g._Get_sysCoord_e())
+                dfr = float(max(np.abs(P[:, :, 0] - im).max(), np.abs(P[:, :, 1] - jm).max(), np.abs(P[:, :, 2] - km).max()))
+                proj = np.einsum("end,edc->enc", Xc[conn], P)
+                dz = float(np.abs(proj[:, :, 2] - proj[:, :1, 2]).max()) / L
+                res(out, i, "syscoord-frame:%s" % g.elemType.name, "frame:%s:%s" % (g.elemType.name, stage), dfr <= 1e-12 and dz <= 1e-12,
+                    "%s %s: element frame of _Get_sysCoord_e vs the model (i, k x i, k): max difference %.2e; third frame coordinate varies by %.2e (relative) inside an element" % (
+                        g.elemType.name, stage, dfr, dz), [dfr, dz], [0, 0])
         inplane = dim == 3 or (mo is None) or all(abs(float(z)) < 1e-13 for z in np.asarray(mesh.coord)[:, 2])
         if dim == 2:
             # the element normal field integrates to the area (embedded Jacobian consistent)
@@ -927,7 +945,8 @@ def case_scaled(i, case, out):
                 b, sg = ob["values"][pname]
                 d = max(float(np.max(np.abs(b - b0))), float(np.max(np.abs(sg - s0)))) / fscale
                 k = int(np.argmax(np.abs(b - b0)))
-                res(out, i, ("scaled:locate:%s:iterative-inverse-map" % cls) if case["iterative"] else "scaled:locate:%s:affine:%s" % (cls, el), "scaled:%s:loc:%s:%g:%s" % (el, pname, s, how), d <= 10 * tol,
+                res(out, i, ("scaled:locate:large:membership-slack" if (cls == "large" and float(np.min(np.abs(np.concatenate([b, sg])))) == 0.0 and d > 10 * tol) else
+                             ("scaled:locate:%s:iterative-inverse-map" % cls) if case["iterative"] else "scaled:locate:%s:affine:%s" % (cls, el)), "scaled:%s:loc:%s:%g:%s" % (el, pname, s, how), d <= 10 * tol,
                     "%s, lengths x %g (%s), %s points (batch of %d and 3 single queries), field f(x/s): max difference to the unit-scale answers %.3e (relative to max|f|) e.g. at %s: %.12g vs %.12g" % (
                         el, s, how, pname, len(b), d, (pools[pname][k] * s).tolist(), b[k], b0[k]), d, 0)
 
